@@ -70,6 +70,31 @@ func c07Exec(cs fw.Case) *fw.Fail {
 		src := c.Src
 		n := len(src)
 		const exp = "ParseFile under this partition = Parse of the whole input (same success, byte-identical dump, same diagnostics)"
+		if c.Mode == "zeros" {
+			// many zero-byte reads scattered over the whole input (each must be ignored, however many there are)
+			want := obsWhole(src)
+			for _, burst := range []int{1, 2, 5} {
+				for _, step := range []int{1, 3} {
+					var sc []impl.Answer
+					for i := 0; i < n; i += step {
+						for b := 0; b < burst; b++ {
+							sc = append(sc, impl.Answer{N: 0})
+						}
+						sc = append(sc, impl.Answer{N: step})
+					}
+					for b := 0; b < burst; b++ {
+						sc = append(sc, impl.Answer{N: 0})
+					}
+					fw.Tally("partitions", 1)
+					got, _ := obsFile(src, sc)
+					if d := diffObs(want, got); d != "" {
+						return fw.Failf(exp, "%d-byte reads, each preceded by %d zero-byte reads (%d zero-byte reads in all): %s", step, burst, (n/step+2)*burst, d)
+					}
+				}
+			}
+			fw.TallyNontrivial()
+			return nil
+		}
 		if c.Mode == "pages" {
 			// the real 4096-byte pages at every alignment: padding of 4096-k bytes in front
 			for k := 0; k <= n; k++ {
@@ -96,6 +121,16 @@ func c07Exec(cs fw.Case) *fw.Fail {
 			got, _ := obsFile(src, scriptOf(sizes))
 			if d := diffObs(want, got); d != "" {
 				return fw.Failf(exp, "reads %v: %s", sizes, d)
+			}
+			// the same partition with the last piece delivered together with io.EOF
+			if len(sizes) > 0 {
+				sc := scriptOf(sizes)
+				sc[len(sc)-1].Err = "EOF"
+				fw.Tally("partitions", 1)
+				got, _ := obsFile(src, sc)
+				if d := diffObs(want, got); d != "" {
+					return fw.Failf(exp, "reads %v with the last one returning its data together with EOF: %s", sizes, d)
+				}
 			}
 			return nil
 		}
@@ -185,7 +220,7 @@ func init() {
 		ID:    "C07",
 		Level: "model_checking",
 		Rule: "inputs: the hand-written corpus programs up to 60 bytes, every token kind alone and every ordered pair of 52 token/separator/failure spellings (two-character operators, escapes, comments, CR LF, 2-, 3- and 4-byte characters in strings, in comments and bare, U+0085/U+00A0 as whitespace, every lexical failure kind), bare and after `print `. " +
-			"For each input EVERY partition into reads is enumerated: all 2^(n-1) compositions for n<=13 (thorough 16) plus zero-byte reads at every cut; all partitions with <=2 (thorough 3) cut points for longer inputs, each also with a zero-byte read; and the real 4096-byte pages with the page boundary at every offset 0..n of the input (two kinds of padding). " +
+			"For each input EVERY partition into reads is enumerated: all 2^(n-1) compositions for n<=13 (thorough 16) plus zero-byte reads at every cut, every partition also with its last piece delivered together with io.EOF; all partitions with <=2 (thorough 3) cut points for longer inputs, each also with a zero-byte read; hundreds of zero-byte reads scattered over inputs of 100-600 bytes; and the real 4096-byte pages with the page boundary at every offset 0..n of the input (two kinds of padding). " +
 			"Oracle: ParseFile(scripted reader) = Parse(whole): same success, byte-identical dump, identical diagnostics. counters.partitions counts ParseFile executions.",
 		Subs:           []*fw.Sub{subC07},
 		BudgetQuick:    100,
@@ -219,7 +254,11 @@ func init() {
 				if !add(s) {
 					return
 				}
+				if len(s) >= 100 && len(s) <= 600 {
+					c.Do(subC07, &c07Case{Src: s, Mode: "zeros"})
+				}
 			}
+			c.Do(subC07, &c07Case{Src: strings.Repeat("print 1 + 2 # c\n", 40) + "print )\n", Mode: "zeros"})
 			for _, a := range c07Tokens {
 				add(a)
 				add("print " + a)
